@@ -891,6 +891,10 @@ class Unit:
         for u in self.uses:
             em.emit(u)
         em.emit('verus! {')
+        if getattr(self, 'mul_comm', True) and os.environ.get('VERIF_MUL_COMM', '1') == '1':
+            # operand order of a product must not matter to any proof (a commutative operation with swapped operands
+            # is a behaviour-preserving edit): x * y == y * x is available everywhere
+            em.emit('broadcast use vstd::arithmetic::mul::lemma_mul_is_commutative;')
         em.emit(panic_stub(mode))
         for sp in self.specs:
             p = os.path.join(VERIF, 'spec', sp)
